@@ -120,6 +120,8 @@ fn structured_line(r: &mut Rng, real: &[String]) -> String {
                 "redirect-rule=x:5", "~redirect=x", "~removeparam=x", "image,~image", "domain=é.com", "tag=é"]);
             format!("{}${}", gen::pattern(r), o)
         }
+        // network rules whose first character is '[' or that look like a list header without being one
+        11 if r.chance(1, 2) => (r.pick(&["[ads]=1", "[x]", "[ad]/banner", "[Adblock", "[Adblock]x/y", "[$script", "[a.com]^"])).to_string(),
         10 => {
             // letter case: hosts and patterns written with upper-case letters (`||WWW.Example.com^`),
             // /regex/ bodies whose escapes are case-sensitive (`\D` is not `\d`), with and without
